@@ -278,7 +278,7 @@ def gen_make(rng, sid, small=True, allow_bad=True):
     if rng.random() < 0.3:
         kw['boost_error'] = False
     if rng.random() < 0.3:
-        kw['mask'] = rng.randrange(4)
+        kw['mask'] = rng.randrange(4) if (fn == 'make_micro' or kw.get('micro') is True or rng.random() < 0.4) else rng.randrange(8)
     if rng.random() < 0.08 and isinstance(content, str):
         kw['encoding'] = rng.choice(('utf-8', 'latin1', 'shift_jis'))
     if allow_bad and rng.random() < 0.12:
